@@ -47,7 +47,7 @@ pub fn run(ctx: &mut Ctx) {
     }
 
     // ---- implementation-only oracle: many honest logins, all must succeed with equal keys ----
-    let per_thread = if ctx.quick() { 2_000 } else { 200_000 };
+    let per_thread = if ctx.quick() { 2_000 } else { 500_000 };
     let seed = ctx.seed;
     let res = par(16, |t| {
         let mut rng = Rng::new(seed, &format!("C01/oracle/{}", t));
